@@ -12,8 +12,10 @@ import PV.Gen.C12VisitProg
           (`PV/Gen/C12*.lean`), re-proved by `decide` on every run, and the property for the real
           node kinds as their corollary.
   Part 3: the constant-tuple optimiser.
-  The witnessed failure of the Visitor part on the unchanged tree is generated next to the data
-  (`PV/Gen/C12Witness.lean`), because the witness trees are written with regenerated kind ids.
+  The final step for the Visitor — `Gen.visit_complete_holds : visit_complete_full`, or, should the
+  regenerated obligation ever become false again, kernel-checked witness trees and
+  `Gen.visit_complete_fails` — is generated next to the data (`PV/Gen/C12Witness.lean`), because it
+  depends on the regenerated truth value and the witness trees are written with regenerated kind ids.
 -/
 namespace PV.C12
 
@@ -73,13 +75,14 @@ theorem fold_callbacks_once_gen (f : Range → Range) (t : Tree) (hc : Conforms 
 
 set_option maxRecDepth 100000 in
 /-- the truth value of `VisitWF` for the regenerated visitor program is the one the translator
-    announced (`false` on the unchanged tree: known finding) -/
+    announced (`true` since the visitor descends into product types, commit 30597f1; a regression
+    makes it `false`, `Gen.visit_complete_holds` disappears and the check reports a violation) -/
 theorem visitWF_gen_value :
     decide (VisitWF Gen.visitProg Gen.schema Gen.carry Gen.need) = Gen.visitWFExpected := by decide +kernel
 
 set_option maxRecDepth 100000 in
-/-- apart from the kinds in `Gen.visitSkip` (visit method with an empty body) the regenerated
-    visitor program is well-formed -/
+/-- apart from the kinds in `Gen.visitSkip` (visit methods with an empty body; none at present) the
+    regenerated visitor program is well-formed -/
 theorem visitWFExcept_gen :
     VisitWFExcept Gen.visitSkip Gen.visitProg Gen.schema Gen.carry Gen.needPartial := by decide +kernel
 
@@ -90,8 +93,8 @@ def visit_complete_full : Prop :=
     (interestingEvents Gen.schema (visitWith Gen.visitProg Gen.schema (.node k r fs))).Perm
       (interestingNodes Gen.schema (.node k r fs))
 
-/-- It holds as soon as the regenerated obligation is true (automatically after a repair of
-    `visitor.rs`). -/
+/-- It holds whenever the regenerated obligation is true; `Gen.visit_complete_holds` in the
+    regenerated `PV/Gen/C12Witness.lean` discharges the hypothesis by `rfl`. -/
 theorem visit_complete_gen (h : Gen.visitWFExpected = true) : visit_complete_full := by
   intro k r fs hc hi
   have hwf : VisitWF Gen.visitProg Gen.schema Gen.carry Gen.need := by
@@ -100,9 +103,9 @@ theorem visit_complete_gen (h : Gen.visitWFExpected = true) : visit_complete_ful
     exact of_decide_eq_true this
   exact visit_complete hwf k r fs hc hi
 
-/-- What holds on the code as it is: every stmt/expr/pattern/excepthandler node not below an
-    `arguments` / `keyword` / `withitem` / `match_case` / `comprehension` node (`Gen.visitSkip`)
-    is reached exactly once. -/
+/-- Unconditional fallback: every stmt/expr/pattern/excepthandler node not below a node of a kind in
+    `Gen.visitSkip` is reached exactly once (`Gen.visitSkip = []` at present, so this is the full
+    statement; it keeps a precise meaning if a visit body is ever emptied again). -/
 theorem visit_complete_partial (k : Nat) (r : Option Range) (fs : List Tree)
     (hc : Conforms Gen.schema (.node k r fs)) (hi : Gen.schema.isInteresting k = true) :
     (interestingEvents Gen.schema (visitWith Gen.visitProg Gen.schema (.node k r fs))).Perm
@@ -118,26 +121,16 @@ theorem opt_idempotent (t : Tree) :
     Opt.constTuple Gen.optCfg (Opt.constTuple Gen.optCfg t) = Opt.constTuple Gen.optCfg t :=
   opt_idempotent_aux Gen.optCfg optCfg_ne t
 
-/-- Full statement: the optimiser is the reference transformation "replace load-context tuples
-    whose elements are all constants by the tuple constant, change nothing else". -/
-def opt_spec_full : Prop := ∀ t : Tree, Opt.constTuple Gen.optCfg t = Spec.opt Gen.optCfg t
+/-- The optimiser is the reference transformation "replace load-context tuples whose elements are
+    all constants by the tuple constant, change nothing else" — on every tree. -/
+theorem opt_spec (t : Tree) : Opt.constTuple Gen.optCfg t = Spec.opt Gen.optCfg t :=
+  opt_spec_aux Gen.optCfg t
 
-/-- It holds on every tree in which no store/del-context tuple is made only of constants (and,
-    recursively, of such tuples). -/
-theorem opt_spec_partial (t : Tree) (h : Spec.noFoldableStoreTuple Gen.optCfg t = true) :
-    Opt.constTuple Gen.optCfg t = Spec.opt Gen.optCfg t :=
-  opt_spec_aux Gen.optCfg optCfg_ne t h
-
-/-- `() = x`-shaped witness: a store-context empty tuple is turned into a constant. -/
-def optWitness : Tree :=
+/-- in particular a store-context tuple is never touched (the `() = x` shape of the former finding) -/
+def storeTupleExample : Tree :=
   .node Gen.optCfg.tuple (some (0, 2)) [.list [], .leaf [83, 116, 111, 114, 101]]
 
-theorem opt_spec_fails : ¬ opt_spec_full := by
-  intro h
-  have h1 := h optWitness
-  have h2 : Tree.beq (Opt.constTuple Gen.optCfg optWitness) (Spec.opt Gen.optCfg optWitness) = false := by
-    decide
-  exact Tree.ne_of_beq_false h2 h1
+example : (Opt.constTuple Gen.optCfg storeTupleExample).beq storeTupleExample = true := by decide
 
 /-! ## non-vacuity examples
   (on a two-kind toy schema, independent of the regenerated ids; examples on the real schema are
@@ -165,9 +158,9 @@ example : ¬ FoldWF ⟨[⟨[0, 1], 1, [(0, 0), (1, 1)], 1, [1, 0]⟩, ⟨[0], 1,
 example : ¬ VisitWF ⟨[some [1], some []], [0], [(0, 0), (1, 1)]⟩ schema [0, 1] [0, 1] := by decide
 end Toy
 
-example : Spec.noFoldableStoreTuple Gen.optCfg
+/-- a load-context tuple of constants is folded -/
+example : isConstNode Gen.optCfg (Opt.constTuple Gen.optCfg
     (.node Gen.optCfg.tuple (some (0, 6)) [.list [.node Gen.optCfg.const (some (1, 2)) [.leaf [49], .none]],
-      .leaf Spec.loadText]) = true := by decide
-example : Spec.noFoldableStoreTuple Gen.optCfg optWitness = false := by decide
+      .leaf Spec.loadText])) = true := by decide
 
 end PV.C12
